@@ -69,7 +69,10 @@ for _t in ('income', 'investment', 'transfer'):
                  _t.replace('s', '\u017f'), _t.upper().replace('ST', '\ufb06'), _t.replace('s', '\u00df'), _t.replace('i', '\u0130').upper(),
                  _t.upper().replace('K', '\u212a'),
                  # one tag whose text contains a comma (a tag list joined by commas must not be mistaken for it, and vice versa)
-                 'bonus,' + _t, _t + ',bonus', _t + ',', ',' + _t]
+                 'bonus,' + _t, _t + ',bonus', _t + ',', ',' + _t,
+                 # characters that only ONE of Python's str.strip() and JavaScript's trim() regards as white space (BOM; NEL, FS-US), and ones both / neither do
+                 '\ufeff' + _t, _t.upper() + '\ufeff', _t + '\u0085', '\x1c' + _t, _t + '\x1f', '\x1d' + _t.title(), _t + '\u00a0', '\u2003' + _t, _t + '\u200b',
+                 '\u180e' + _t, _t + '\u2028']
 
 
 def extract_block(js):
